@@ -2,7 +2,7 @@
    spec_detect is the property read literally (Spec/C07Spec.v); the code additionally requires the
    previous session id to be non-zero (finding F12), so exactness holds on F12-free histories and is
    refuted by a concrete witness otherwise. *)
-From PS Require Import Lib.Base Model.Session Spec.C07Spec Proofs.C07Proofs.
+From PS Require Import Lib.Base Model.Session Spec.C07Spec Proofs.C07Proofs Generated.LogicGen Proofs.GenEquiv.
 
 (* what the code computes, for every history *)
 Theorem C07_exact_code : forall h, run_check sess_init h = spec_detect_code h.
@@ -31,6 +31,10 @@ Example C07_nonvacuous : f12_free [(1, false, false, 5); (1, false, true, 1); (1
   /\ run_check sess_init [(1, false, false, 5); (1, false, true, 1); (1, true, true, 1); (1, false, true, 1)] = [false; true; false; true].
 Proof. split; reflexivity. Qed.
 
+(* tie to the source: the model function IS the Python function, translated from the source text on every run *)
+Theorem C07_model_is_the_translated_source : forall s a mc f sid, gen_check_received s a mc f sid = check_received s a mc f sid.
+Proof. exact gen_check_received_eq. Qed.
+
 Print Assumptions C07_exact_code.
 Print Assumptions C07_exact.
 Print Assumptions C07_exact_refuted.
@@ -38,3 +42,4 @@ Print Assumptions C07_f12_is_the_only_gap.
 Print Assumptions C07_first_message_never.
 Print Assumptions C07_flag_clear_never.
 Print Assumptions C07_other_senders_and_channels_ignored.
+Print Assumptions C07_model_is_the_translated_source.
